@@ -64,7 +64,16 @@ def run(rep, tier, seed, proof_ok):
     rep.rule = ("is_authorized_path: package depths 1..6 x accepted prefix at each depth (or none) x 1..40 accepted packages, with and "
                 "without the three default entries, plus random near-miss accepted names; real EvalMainContext.is_authorized_path vs "
                 "Coq model vs the dotted-prefix specification; non-trivial = accepted prefix deeper than the number of accepted packages "
-                "or a near miss")
+                "or a near miss; then package trees on disk (harness/c14_programs.py): accepted prefix at every depth x import forms, edits of code and "
+                "variables on both sides of the boundary, data functions of non-accepted modules; then OBJECT SHAPES (harness/c14_shapes.py): in trees "
+                "of depth 1..6 x accepted prefix at every depth x 1..40 accepted packages x non-accepted twin package (separate tree / near-miss name / "
+                "sibling of the accepted package), a function of a definition module is exposed to the accepted pipeline under 22 shapes (plain, alias "
+                "by assignment, old name kept by a functools.wraps wrapper, decorated in place, closure wrapper, functools.partial, lambda, function "
+                "made by a factory, static / instance method, class alias, re-export through a facade module or a package __init__ with and without "
+                "renaming, facade of an alias / of a wrapper, wrapper made in the facade, two hops) x definition and exposure each on the accepted or "
+                "the non-accepted side x 5 import forms; a random history of 4 edits (code / tracked variable, accepted / non-accepted side) is "
+                "replayed by fresh processes on one local store: accepted edits must change the signature of every root that reaches them and the kept "
+                "value must equal plain execution, non-accepted edits must change none; constructs refused at every step are counted, not violations")
     cases = gen_cases(rng, tier)
     impl = C.run_driver("drive_small.py", {"kind": "authorized", "cases": cases})
     model = C.coq_eval_strings(PRELUDE, [f"run_authorized {lst(c['parts'])} {lst(c['accepted'])}" for c in cases], label="c14")
@@ -91,6 +100,12 @@ def run(rep, tier, seed, proof_ok):
         c14_programs.run(rep, tier, seed, proof_ok, rng)
     except ImportError:
         rep.extra["program_part"] = "package-tree / edit part not built yet"
+    import c14_shapes
+    c14_shapes.run(rep, tier, seed, proof_ok, rng)
+    rep.extra["input_distribution"].update({"object_shapes": rep.extra["shape_part"]["shapes"], "shape_configurations": rep.extra["shape_part"]["configurations"],
+                                            "shape_scenarios": rep.extra["shape_part"]["scenarios"],
+                                            "distinct_shape_x_sides_x_import_form": rep.extra["shape_part"]["distinct_shape_sides_form"],
+                                            "shape_root_evaluations_judged": rep.extra["shape_part"]["root_evaluations_judged"]})
 
 
 def replay(path):
@@ -101,5 +116,8 @@ def replay(path):
         print(json.dumps({"case": r["case"], "impl": i, "expected": exp}))
         print("REPRODUCED" if i != exp else "not reproduced")
         return 1 if i != exp else 0
+    if "shape_case" in r:
+        import c14_shapes
+        return c14_shapes.replay(r)
     import c14_programs
     return c14_programs.replay(r)
